@@ -2123,5 +2123,541 @@ theorem observe_congr {s t : State} (h : Equiv s t) : observe s = observe t := b
       simp only [List.map_cons, List.cons.injEq] at hs
       simp only [List.map_cons, ih l' hs.2, (BEqv.fields hs.1).1, currentObjects_congr hs.1]
 
+-- ---------------------------------------------------------------- open uploads and the id map
+
+/-! Which uploads exist where: needed to show that the upload-id map lookup never misses. -/
+
+/-- Bucket `name` of `s` holds an open upload with id `uid`. -/
+def UpIn (s : State) (name : String) (uid : Nat) : Prop :=
+  ∃ bk ∈ s.buckets, bk.name = name ∧ ∃ up ∈ bk.uploads, up.uid = uid
+
+def uids (bk : Bucket) : List Nat := bk.uploads.map (·.uid)
+
+/-- `x`'s state is `s` with the buckets named `name` replaced by one whose upload ids are `L` —
+or has `s`'s buckets; the upload-id counter is unchanged. -/
+def RP (s : State) (name : String) (L : List Nat) (x : State × Out) : Prop :=
+  x.1.nextUid = s.nextUid ∧
+  (x.1.buckets = s.buckets ∨ ∃ X : Bucket, x.1.buckets = (setBucket s X).buckets ∧ X.name = name ∧ uids X = L)
+
+/-- The second alternative of `RP` alone. -/
+def RP2 (s : State) (name : String) (L : List Nat) (x : State × Out) : Prop :=
+  x.1.nextUid = s.nextUid ∧ ∃ X : Bucket, x.1.buckets = (setBucket s X).buckets ∧ X.name = name ∧ uids X = L
+
+theorem RP2.rp {s : State} {name : String} {L : List Nat} {x : State × Out} (h : RP2 s name L x) : RP s name L x :=
+  ⟨h.1, Or.inr h.2⟩
+
+theorem RP2.put {s : State} {name : String} {L : List Nat} (X : Bucket) (hn : X.name = name) (hL : uids X = L)
+    (x : State × Out) (hb : x.1.buckets = (setBucket s X).buckets) (hu : x.1.nextUid = s.nextUid) : RP2 s name L x :=
+  ⟨hu, X, hb, hn, hL⟩
+
+theorem RP2.upIn {s : State} {name : String} {L : List Nat} {x : State × Out} (h : RP2 s name L x)
+    {n : String} {uid : Nat} (hin : UpIn x.1 n uid) : (n = name ∧ uid ∈ L) ∨ (n ≠ name ∧ UpIn s n uid) := by
+  obtain ⟨_, X, hb, hn, hL⟩ := h
+  obtain ⟨bk, hbk, hname, up, hup, huid⟩ := hin
+  rw [hb] at hbk
+  simp only [setBucket, List.mem_map] at hbk
+  obtain ⟨y, hy, rfl⟩ := hbk
+  by_cases hc : (y.name == X.name) = true
+  · simp only [hc, if_true] at hname hup
+    left
+    refine ⟨by rw [← hname, hn], ?_⟩
+    rw [← hL]; exact List.mem_map.mpr ⟨up, hup, huid⟩
+  · have hc' : (y.name == X.name) = false := by simpa using hc
+    simp only [hc', Bool.false_eq_true, if_false] at hname hup
+    right
+    refine ⟨?_, y, hy, hname, up, hup, huid⟩
+    intro hnn
+    apply hc
+    rw [hname, hnn, hn]; simp
+
+theorem RP.same (s : State) (name : String) (L : List Nat) (o : Out) : RP s name L (s, o) := ⟨rfl, Or.inl rfl⟩
+
+theorem RP.ite {s : State} {name : String} {L : List Nat} {c : Bool} {a b : State × Out}
+    (ha : RP s name L a) (hb : RP s name L b) : RP s name L (if c = true then a else b) := by
+  cases c <;> simpa
+
+theorem RP.put {s : State} {name : String} {L : List Nat} (X : Bucket) (hn : X.name = name) (hL : uids X = L)
+    (x : State × Out) (hb : x.1.buckets = (setBucket s X).buckets) (hu : x.1.nextUid = s.nextUid) : RP s name L x :=
+  ⟨hu, Or.inr ⟨X, hb, hn, hL⟩⟩
+
+/-- What an `RP` result says about where uploads are afterwards. -/
+theorem RP.upIn {s : State} {name : String} {L : List Nat} {x : State × Out} (h : RP s name L x)
+    {n : String} {uid : Nat} (hin : UpIn x.1 n uid) : (n = name ∧ uid ∈ L) ∨ (UpIn s n uid) := by
+  obtain ⟨_, hb | ⟨X, hb, hn, hL⟩⟩ := h
+  · right; unfold UpIn at hin ⊢; rw [hb] at hin; exact hin
+  · obtain ⟨bk, hbk, hname, up, hup, huid⟩ := hin
+    rw [hb] at hbk
+    simp only [setBucket, List.mem_map] at hbk
+    obtain ⟨y, hy, rfl⟩ := hbk
+    by_cases hc : (y.name == X.name) = true
+    · simp only [hc, if_true] at hname hup
+      left
+      refine ⟨by rw [← hname, hn], ?_⟩
+      rw [← hL]; exact List.mem_map.mpr ⟨up, hup, huid⟩
+    · have hc' : (y.name == X.name) = false := by simpa using hc
+      simp only [hc', Bool.false_eq_true, if_false] at hname hup
+      right; exact ⟨y, hy, hname, up, hup, huid⟩
+
+-- name and uploads of the bucket are untouched by the row helpers
+@[simp] theorem uids_replaceRow (bk : Bucket) (r : Row) : uids (replaceRow bk r) = uids bk := rfl
+@[simp] theorem uids_addRow (bk : Bucket) (r : Row) : uids (addRow bk r) = uids bk := rfl
+@[simp] theorem uids_removeRow (bk : Bucket) (i : Nat) : uids (removeRow bk i) = uids bk := rfl
+@[simp] theorem uids_unlatest (q : Quirks) (n : Nat) (bk : Bucket) (r : Row) : uids (unlatest q n bk r) = uids bk := rfl
+@[simp] theorem name_replaceRow (bk : Bucket) (r : Row) : (replaceRow bk r).name = bk.name := rfl
+@[simp] theorem name_addRow (bk : Bucket) (r : Row) : (addRow bk r).name = bk.name := rfl
+@[simp] theorem name_removeRow (bk : Bucket) (i : Nat) : (removeRow bk i).name = bk.name := rfl
+@[simp] theorem name_unlatest (q : Quirks) (n : Nat) (bk : Bucket) (r : Row) : (unlatest q n bk r).name = bk.name := rfl
+
+@[simp] theorem uids_unlatestCur (q : Quirks) (n : Nat) (bk : Bucket) (k : String) : uids (unlatestCur q n bk k) = uids bk := by
+  unfold unlatestCur; split <;> rfl
+@[simp] theorem name_unlatestCur (q : Quirks) (n : Nat) (bk : Bucket) (k : String) : (unlatestCur q n bk k).name = bk.name := by
+  unfold unlatestCur; split <;> rfl
+@[simp] theorem uids_delBk1 (bk : Bucket) (k : String) : uids (delBk1 bk k) = uids bk := by
+  unfold delBk1; split
+  · split <;> rfl
+  · rfl
+@[simp] theorem name_delBk1 (bk : Bucket) (k : String) : (delBk1 bk k).name = bk.name := by
+  unfold delBk1; split
+  · split <;> rfl
+  · rfl
+@[simp] theorem uids_delBk2 (q : Quirks) (n : Nat) (bk bk1 : Bucket) (k : String) : uids (delBk2 q n bk bk1 k) = uids bk1 := by
+  unfold delBk2; split
+  · split <;> rfl
+  · rfl
+@[simp] theorem name_delBk2 (q : Quirks) (n : Nat) (bk bk1 : Bucket) (k : String) : (delBk2 q n bk bk1 k).name = bk1.name := by
+  unfold delBk2; split
+  · split <;> rfl
+  · rfl
+
+theorem install_rp2 (q : Quirks) (s : State) (bk : Bucket) (k : String) (n : NewObj) (o : Out) :
+    RP2 s bk.name (uids bk) ((install q s bk k n).1, o) := by
+  unfold install
+  dsimp only
+  split
+  · exact RP2.put _ (by simp) (by simp) _ rfl rfl
+  · split
+    · exact RP2.put _ (by simp) (by simp) _ rfl rfl
+    · exact RP2.put _ (by simp) (by simp) _ rfl rfl
+
+theorem install_rp (q : Quirks) (s : State) (bk : Bucket) (k : String) (n : NewObj) (o : Out) :
+    RP s bk.name (uids bk) ((install q s bk k n).1, o) := (install_rp2 q s bk k n o).rp
+
+theorem unpack_rp {s : State} {name : String} {L : List Nat} (f : Option Nat → Out)
+    (x : Except Err (State × Option Nat)) (hx : ∀ r, x = .ok r → ∀ o, RP s name L (r.1, o)) :
+    RP s name L (unpack s f x) := by
+  cases x with
+  | error e => exact RP.same s name L _
+  | ok r => exact hx r rfl _
+
+theorem putRow_rp2 (q : Quirks) (s : State) (bk : Bucket) (k : String) (n : NewObj) (inm : Bool) (im : IfMatch)
+    (r : State × Option Nat) (hr : putRow q s bk k n inm im = .ok r) (o : Out) : RP2 s bk.name (uids bk) (r.1, o) := by
+  obtain ⟨bk1, rfl, hbk1⟩ := putRow_ok_shape q s bk k n inm im r hr
+  rcases hbk1 with rfl | ⟨a, _, rfl⟩
+  · exact install_rp2 q s _ k n o
+  · have := install_rp2 q s (replaceRow bk (touch q s.clock a)) k n o
+    simpa using this
+
+theorem putRow_rp (q : Quirks) (s : State) (bk : Bucket) (k : String) (n : NewObj) (inm : Bool) (im : IfMatch)
+    (r : State × Option Nat) (hr : putRow q s bk k n inm im = .ok r) (o : Out) : RP s bk.name (uids bk) (r.1, o) :=
+  (putRow_rp2 q s bk k n inm im r hr o).rp
+
+theorem withB_rp {s : State} (b : String) {f : Bucket → State × Out} {P : State × Out → Prop}
+    (hnone : P (s, .err .noSuchBucket)) (hf : ∀ bk ∈ s.buckets, bk.name = b → P (f bk)) : P (withB s b f) := by
+  unfold withB
+  cases hfb : findBucket s b with
+  | none => exact hnone
+  | some bk =>
+    have hn : bk.name = b := by
+      have := List.find?_some hfb
+      simpa using this
+    exact hf bk (mem_of_findBucket hfb) hn
+
+
+/-- "No new upload anywhere, counter unchanged." -/
+def K1 (s : State) (x : State × Out) : Prop :=
+  x.1.nextUid = s.nextUid ∧ ∀ n uid, UpIn x.1 n uid → UpIn s n uid
+
+theorem K1.same (s : State) (o : Out) : K1 s (s, o) := ⟨rfl, fun _ _ h => h⟩
+
+theorem K1.ite {s : State} {c : Bool} {a b : State × Out} (ha : K1 s a) (hb : K1 s b) :
+    K1 s (if c = true then a else b) := by cases c <;> simpa
+
+theorem mem_uids {bk : Bucket} {uid : Nat} (h : uid ∈ uids bk) : ∃ up ∈ bk.uploads, up.uid = uid := by
+  simpa [uids] using h
+
+theorem K1.of_rp {s : State} {bk : Bucket} (hbk : bk ∈ s.buckets) {L : List Nat} (hL : ∀ uid ∈ L, uid ∈ uids bk)
+    {x : State × Out} (h : RP s bk.name L x) : K1 s x := by
+  refine ⟨h.1, fun n uid hin => ?_⟩
+  rcases h.upIn hin with ⟨rfl, hmem⟩ | h'
+  · obtain ⟨up, hup, hu⟩ := mem_uids (hL uid hmem)
+    exact ⟨bk, hbk, rfl, up, hup, hu⟩
+  · exact h'
+
+theorem K1.unpack {s : State} {bk : Bucket} (hbk : bk ∈ s.buckets) (f : Option Nat → Out)
+    (x : Except Err (State × Option Nat)) {L : List Nat} (hL : ∀ uid ∈ L, uid ∈ uids bk)
+    (hx : ∀ r, x = .ok r → ∀ o, RP s bk.name L (r.1, o)) : K1 s (Replication.unpack s f x) :=
+  K1.of_rp hbk hL (unpack_rp f x hx)
+
+theorem delNone_k1 (q : Quirks) {s : State} {bk : Bucket} (hbk : bk ∈ s.buckets) (k : String) (im : IfMatch) :
+    K1 s (delNone q s bk k im) := by
+  unfold delNone
+  refine K1.ite (K1.ite (K1.same s _) (K1.same s _)) (K1.ite (K1.same s _) (K1.ite ?_ ?_))
+  · exact K1.of_rp hbk (fun _ h => h) (RP.put _ (by simp) (by simp) _ rfl rfl)
+  · cases latestRow bk k with
+    | none => exact K1.same s _
+    | some r => exact K1.of_rp hbk (fun _ h => h) (RP.put _ (by simp) (by simp) _ rfl rfl)
+
+theorem appendOn_k1 (q : Quirks) {s : State} {bk : Bucket} (hbk : bk ∈ s.buckets) (k : String)
+    (body : Bytes) (off : Option Nat) : K1 s (appendOn q s bk k body off) := by
+  unfold appendOn appendBody
+  refine K1.ite (K1.same s _) ?_
+  cases latestRow bk k with
+  | none =>
+    dsimp only
+    cases hq : q.appendLatestInPlace <;>
+      simp only [Bool.false_eq_true, if_false, if_true] <;>
+      repeat' (first
+        | exact K1.same s _
+        | exact K1.unpack hbk _ _ (fun _ h => h) (fun r hr o => putRow_rp q s bk k _ _ _ r hr o)
+        | exact K1.of_rp hbk (fun _ h => h) (RP.put _ (by simp) (by simp) _ rfl rfl)
+        | apply K1.ite)
+  | some a =>
+    cases a with
+    | mk rowId key vid dm latest created updated wrote parts etag ct md tags cls seqBase =>
+    cases dm <;> cases hq : q.appendLatestInPlace <;> cases vid <;>
+      simp only [Bool.false_eq_true, if_false, if_true, Option.isNone_none, Option.isNone_some] <;>
+      repeat' (first
+        | exact K1.same s _
+        | exact K1.unpack hbk _ _ (fun _ h => h) (fun r hr o => putRow_rp q s bk k _ _ _ r hr o)
+        | exact K1.of_rp hbk (fun _ h => h) (RP.put _ (by simp) (by simp) _ rfl rfl)
+        | apply K1.ite)
+
+
+theorem K1.withB {s : State} (b : String) {f : Bucket → State × Out}
+    (hf : ∀ bk ∈ s.buckets, bk.name = b → K1 s (f bk)) : K1 s (Replication.withB s b f) :=
+  withB_rp b (K1.same s _) hf
+
+theorem K1.res {s : State} (f : Row → State × Out) (hf : ∀ r, K1 s (f r)) (x : Except Err Row) :
+    K1 s (match x with | .error e => (s, Out.err e) | .ok r => f r) := by
+  cases x with
+  | error e => exact K1.same s _
+  | ok r => exact hf r
+
+theorem uploadPart_rp2 (s : State) (bk : Bucket) (uid : Nat) (k : String) (n : Nat) (body : Bytes) (u : Upload)
+    (hfu : bk.uploads.find? (fun u => u.uid == uid && u.key == k) = some u) (o : Out) :
+    RP2 s bk.name (uids bk)
+      (setBucket s { bk with uploads := bk.uploads.map fun x =>
+          if x.uid == uid then { u with parts := sortedInsert n body u.parts } else x }, o) := by
+  refine RP2.put { bk with uploads := bk.uploads.map fun x =>
+          if x.uid == uid then { u with parts := sortedInsert n body u.parts } else x } rfl ?_ _ rfl rfl
+  have hu : u.uid = uid := by
+    have := List.find?_some hfu
+    simp only [Bool.and_eq_true, beq_iff_eq] at this
+    exact this.1
+  simp only [uids, List.map_map]
+  apply List.map_congr_left
+  intro x _
+  simp only [Function.comp]
+  by_cases hc : x.uid = uid
+  · simp [hc, hu]
+  · simp [hc]
+
+theorem upIn_tick (s : State) (n : String) (uid : Nat) : UpIn (tick s) n uid ↔ UpIn s n uid := Iff.rfl
+
+/-- Every call but CreateMultipartUpload creates no upload and leaves the upload-id counter alone. -/
+theorem step_k1 (q : Quirks) (s : State) (op : Op) (hv : opNamesVersion op = false)
+    (hm : ∀ b k o, op ≠ .mpu b k o) : K1 (tick s) (step q s op) := by
+  cases op with
+  | mpu b k o => exact absurd rfl (hm b k o)
+  | mkb b =>
+    rw [step_mkb_eq]
+    refine K1.ite (K1.same _ _) ⟨rfl, ?_⟩
+    rintro n uid ⟨bk, hbk, hn, up, hup, hu⟩
+    rcases List.mem_append.mp hbk with h | h
+    · exact ⟨bk, h, hn, up, hup, hu⟩
+    · simp only [List.mem_singleton] at h; subst h; simp at hup
+  | rmb b =>
+    rw [step_rmb_eq]
+    refine K1.withB b fun bk hbk hn => K1.ite (K1.same _ _) ⟨rfl, ?_⟩
+    rintro n uid ⟨x, hx, hxn, up, hup, hu⟩
+    exact ⟨x, (List.mem_filter.mp hx).1, hxn, up, hup, hu⟩
+  | setVer b v =>
+    rw [step_setVer_eq]
+    exact K1.withB b fun bk hbk hn => K1.of_rp hbk (fun _ h => h) (RP.put { bk with ver := v } rfl rfl _ rfl rfl)
+  | put b k body o inm im =>
+    rw [step_put_eq]
+    exact K1.withB b fun bk hbk hn =>
+      K1.unpack hbk _ _ (fun _ h => h) (fun r hr o => putRow_rp q _ bk k _ _ _ r hr o)
+  | get b k vid =>
+    rw [step_get_eq]
+    exact K1.withB b fun bk hbk hn => by cases resolve bk k vid <;> exact K1.same _ _
+  | head b k vid =>
+    rw [step_head_eq]
+    exact K1.withB b fun bk hbk hn => by cases resolve bk k vid <;> exact K1.same _ _
+  | del b k vid im =>
+    cases vid with
+    | some v => simp [opNamesVersion] at hv
+    | none =>
+      rw [step_del_eq]
+      exact K1.withB b fun bk hbk hn => by rw [deleteOp_none_eq]; exact delNone_k1 q hbk k im
+  | copy sb sk svid db dk rm rt o =>
+    rw [step_copy_eq]
+    cases findBucket (tick s) sb with
+    | none => exact K1.same _ _
+    | some sbk =>
+      dsimp only
+      cases resolve sbk sk svid with
+      | error e => exact K1.same _ _
+      | ok src =>
+        exact K1.withB db fun bk hbk hn =>
+          K1.unpack hbk _ _ (fun _ h => h) (fun r hr o => putRow_rp q _ bk dk _ _ _ r hr o)
+  | append b k body off =>
+    rw [step_append_eq]
+    exact K1.withB b fun bk hbk hn => appendOn_k1 q hbk k body off
+  | uploadPart b k uid n body =>
+    rw [step_uploadPart_eq]
+    refine K1.withB b fun bk hbk hn => ?_
+    cases hfu : bk.uploads.find? (fun u => u.uid == uid && u.key == k) with
+    | none => exact K1.same _ _
+    | some u => exact K1.of_rp hbk (fun _ h => h) (uploadPart_rp2 _ bk uid k n body u hfu _).rp
+  | complete b k uid declared inm im =>
+    rw [step_complete_eq]
+    refine K1.withB b fun bk hbk hn => ?_
+    cases bk.uploads.find? (fun u => u.uid == uid && u.key == k) with
+    | none => exact K1.same _ _
+    | some u =>
+      dsimp only
+      refine K1.ite (K1.same _ _) ?_
+      cases declaredErr u declared with
+      | some e => exact K1.same _ _
+      | none =>
+        dsimp only
+        exact K1.unpack hbk _ _ (L := uids { bk with uploads := bk.uploads.filter (·.uid != uid) })
+          (fun x hx => by
+            simp only [uids, List.mem_map, List.mem_filter] at hx ⊢
+            obtain ⟨a, ⟨ha, _⟩, rfl⟩ := hx
+            exact ⟨a, ha, rfl⟩)
+          (fun r hr o => putRow_rp q _ { bk with uploads := bk.uploads.filter (·.uid != uid) } k _ _ _ r hr o)
+  | abort b k uid =>
+    rw [step_abort_eq]
+    refine K1.withB b fun bk hbk hn => ?_
+    cases bk.uploads.find? (fun u => u.uid == uid && u.key == k) with
+    | none => exact K1.same _ _
+    | some u =>
+      exact K1.of_rp hbk (L := uids { bk with uploads := bk.uploads.filter (·.uid != uid) })
+        (fun x hx => by
+          simp only [uids, List.mem_map, List.mem_filter] at hx ⊢
+          obtain ⟨a, ⟨ha, _⟩, rfl⟩ := hx
+          exact ⟨a, ha, rfl⟩)
+        (RP.put { bk with uploads := bk.uploads.filter (·.uid != uid) } rfl rfl _ rfl rfl)
+  | getTags b k vid =>
+    rw [step_getTags_eq]
+    exact K1.withB b fun bk hbk hn => by cases resolve bk k vid <;> exact K1.same _ _
+  | putTags b k vid tags =>
+    rw [step_putTags_eq]
+    exact K1.withB b fun bk hbk hn =>
+      K1.res _ (fun r => K1.of_rp hbk (fun _ h => h) (RP.put _ (by simp) (by simp) _ rfl rfl)) _
+  | delTags b k vid =>
+    rw [step_delTags_eq]
+    exact K1.withB b fun bk hbk hn =>
+      K1.res _ (fun r => K1.of_rp hbk (fun _ h => h) (RP.put _ (by simp) (by simp) _ rfl rfl)) _
+  | transition b k cls vid =>
+    cases vid with
+    | some v => simp [opNamesVersion] at hv
+    | none =>
+      rw [step_transition_eq]
+      refine K1.withB b fun bk hbk hn => ?_
+      dsimp only
+      cases latestRow bk k with
+      | none => exact K1.same _ _
+      | some r => exact K1.ite (K1.same _ _) (K1.of_rp hbk (fun _ h => h) (RP.put _ (by simp) (by simp) _ rfl rfl))
+  | list b => rw [step_list_eq]; exact K1.withB b fun bk hbk hn => K1.same _ _
+  | listVersions b => rw [step_listVersions_eq]; exact K1.withB b fun bk hbk hn => K1.same _ _
+  | listBuckets => exact K1.same _ _
+
+
+theorem upIn_setBucket {s x : State} {X : Bucket} (hb : x.buckets = (setBucket s X).buckets)
+    {n : String} {uid : Nat} (hin : UpIn x n uid) :
+    (n = X.name ∧ uid ∈ uids X) ∨ (n ≠ X.name ∧ UpIn s n uid) := by
+  have h2 : RP2 s X.name (uids X) ({ x with nextUid := s.nextUid }, Out.unit) := ⟨rfl, X, hb, rfl, rfl⟩
+  exact h2.upIn (x := ({ x with nextUid := s.nextUid }, Out.unit)) hin
+
+/-- CreateMultipartUpload: fails without a trace, or answers the counter value and opens exactly
+that upload in bucket `b`. -/
+theorem step_mpu_k (q : Quirks) (s : State) (b k : String) (o : WriteOpts) :
+    (isErrOut (step q s (.mpu b k o)).2 = true ∧ (step q s (.mpu b k o)).1 = tick s) ∨
+    ((step q s (.mpu b k o)).2 = .upload s.nextUid ∧ (step q s (.mpu b k o)).1.nextUid = s.nextUid + 1 ∧
+      ∀ n uid, UpIn (step q s (.mpu b k o)).1 n uid → UpIn s n uid ∨ (n = b ∧ uid = s.nextUid)) := by
+  rw [step_mpu_eq]
+  unfold withB
+  cases hfb : findBucket (tick s) b with
+  | none => left; exact ⟨rfl, rfl⟩
+  | some bk =>
+    right
+    have hn : bk.name = b := by simpa using List.find?_some hfb
+    refine ⟨rfl, rfl, ?_⟩
+    intro n uid hin
+    rcases upIn_setBucket (s := tick s) (X := { bk with uploads := bk.uploads ++
+        [{ uid := (tick s).nextUid, key := k, created := (tick s).clock, ct := o.ct, md := o.md, tags := o.tags, cls := o.cls }] })
+        rfl hin with ⟨h1, h2⟩ | ⟨_, h2⟩
+    · simp only [uids, List.map_append, List.map_cons, List.map_nil, List.mem_append, List.mem_singleton] at h2
+      rcases h2 with h2 | h2
+      · left
+        obtain ⟨up, hup, hu⟩ := mem_uids (bk := bk) (by simpa [uids] using h2)
+        exact ⟨bk, mem_of_findBucket hfb, by rw [h1], up, hup, hu⟩
+      · right; exact ⟨by rw [h1]; exact hn, h2⟩
+    · left; exact h2
+
+/-- A multipart call that succeeded named an open upload of its bucket. -/
+theorem uid_ok_upIn (q : Quirks) (s : State) (op : Op) (u : Nat) (hu : uidOfBase op = some u)
+    (hok : isErrOut (step q s op).2 = false) : ∃ b, UpIn s b u := by
+  have key : ∀ (b k : String) (f : Bucket → Upload → State × Out),
+      isErrOut (Replication.withB (tick s) b fun bk =>
+        match bk.uploads.find? (fun x => x.uid == u && x.key == k) with
+        | none => (tick s, .err .noSuchKey)
+        | some up => f bk up).2 = false → UpIn s b u := by
+    intro b k f h
+    unfold Replication.withB at h
+    cases hfb : findBucket (tick s) b with
+    | none => rw [hfb] at h; simp [isErrOut] at h
+    | some bk =>
+      rw [hfb] at h
+      dsimp only at h
+      cases hfu : bk.uploads.find? (fun x => x.uid == u && x.key == k) with
+      | none => rw [hfu] at h; simp [isErrOut] at h
+      | some up =>
+        have hn : bk.name = b := by simpa using List.find?_some hfb
+        have hup := List.find?_some hfu
+        simp only [Bool.and_eq_true, beq_iff_eq] at hup
+        exact ⟨bk, mem_of_findBucket hfb, hn, up, List.mem_of_find?_eq_some hfu, hup.1⟩
+  cases op with
+  | uploadPart b k uid n body =>
+    simp only [uidOfBase, Option.some.injEq] at hu; subst hu
+    rw [step_uploadPart_eq] at hok
+    exact ⟨b, key b k _ hok⟩
+  | complete b k uid declared inm im =>
+    simp only [uidOfBase, Option.some.injEq] at hu; subst hu
+    rw [step_complete_eq] at hok
+    exact ⟨b, key b k _ hok⟩
+  | abort b k uid =>
+    simp only [uidOfBase, Option.some.injEq] at hu; subst hu
+    rw [step_abort_eq] at hok
+    exact ⟨b, key b k _ hok⟩
+  | mkb b => simp [uidOfBase] at hu
+  | rmb b => simp [uidOfBase] at hu
+  | setVer b v => simp [uidOfBase] at hu
+  | put b k body o inm im => simp [uidOfBase] at hu
+  | get b k vid => simp [uidOfBase] at hu
+  | head b k vid => simp [uidOfBase] at hu
+  | del b k vid im => simp [uidOfBase] at hu
+  | copy sb sk svid db dk rm rt o => simp [uidOfBase] at hu
+  | append b k body off => simp [uidOfBase] at hu
+  | mpu b k o => simp [uidOfBase] at hu
+  | getTags b k vid => simp [uidOfBase] at hu
+  | putTags b k vid tags => simp [uidOfBase] at hu
+  | delTags b k vid => simp [uidOfBase] at hu
+  | transition b k cls vid => simp [uidOfBase] at hu
+  | list b => simp [uidOfBase] at hu
+  | listVersions b => simp [uidOfBase] at hu
+  | listBuckets => simp [uidOfBase] at hu
+
+
+/-- Upload ids are owned by one bucket name. -/
+def UidFunctional (s : State) : Prop := ∀ n1 n2 uid, UpIn s n1 uid → UpIn s n2 uid → n1 = n2
+
+theorem filtered_ne {bk : Bucket} {u uid : Nat}
+    (h : uid ∈ uids { bk with uploads := bk.uploads.filter (·.uid != u) }) : uid ≠ u := by
+  simp only [uids, List.mem_map, List.mem_filter] at h
+  obtain ⟨a, ⟨_, ha⟩, rfl⟩ := h
+  simpa using ha
+
+theorem ends_tail {s x : State} {bk : Bucket} {b : String} {u : Nat} (hU : UidFunctional s)
+    (hbk : bk ∈ s.buckets) (hn : bk.name = b) (hup : ∃ up ∈ bk.uploads, up.uid = u)
+    {X : Bucket} (hX : x.buckets = (setBucket s X).buckets) (hXn : X.name = b)
+    (hXu : uids X = uids { bk with uploads := bk.uploads.filter (·.uid != u) }) :
+    ∀ n uid, UpIn x n uid → uid ≠ u := by
+  intro n uid hin
+  rcases upIn_setBucket hX hin with ⟨_, h2⟩ | ⟨h1, h2⟩
+  · rw [hXu] at h2; exact filtered_ne h2
+  · intro he
+    subst he
+    obtain ⟨up, hup1, hup2⟩ := hup
+    have := hU n b uid h2 ⟨bk, hbk, hn, up, hup1, hup2⟩
+    exact h1 (by rw [this, hXn])
+
+/-- After a successful Complete/Abort of upload `u` no bucket holds an upload with that id. -/
+theorem ends_removes (q : Quirks) (s : State) (op : Op) (u : Nat) (hu : uidOfBase op = some u)
+    (hends : endsUpload (.base op) = true) (hU : UidFunctional s)
+    (hok : isErrOut (step q s op).2 = false) : ∀ n uid, UpIn (step q s op).1 n uid → uid ≠ u := by
+  have hUt : UidFunctional (tick s) := hU
+  cases op with
+  | abort b k uid =>
+    simp only [uidOfBase, Option.some.injEq] at hu; subst hu
+    rw [step_abort_eq] at hok ⊢
+    unfold Replication.withB at hok ⊢
+    cases hfb : findBucket (tick s) b with
+    | none => rw [hfb] at hok; simp [isErrOut] at hok
+    | some bk =>
+      rw [hfb] at hok
+      dsimp only at hok ⊢
+      cases hfu : bk.uploads.find? (fun x => x.uid == uid && x.key == k) with
+      | none => rw [hfu] at hok; simp [isErrOut] at hok
+      | some up =>
+        have hn : bk.name = b := by simpa using List.find?_some hfb
+        have hup := List.find?_some hfu
+        simp only [Bool.and_eq_true, beq_iff_eq] at hup
+        exact ends_tail hUt (mem_of_findBucket hfb) hn ⟨up, List.mem_of_find?_eq_some hfu, hup.1⟩
+          (X := { bk with uploads := bk.uploads.filter (·.uid != uid) }) rfl hn rfl
+  | complete b k uid declared inm im =>
+    simp only [uidOfBase, Option.some.injEq] at hu; subst hu
+    rw [step_complete_eq] at hok ⊢
+    unfold Replication.withB at hok ⊢
+    cases hfb : findBucket (tick s) b with
+    | none => rw [hfb] at hok; simp [isErrOut] at hok
+    | some bk =>
+      rw [hfb] at hok
+      dsimp only at hok ⊢
+      cases hfu : bk.uploads.find? (fun x => x.uid == uid && x.key == k) with
+      | none => rw [hfu] at hok; simp [isErrOut] at hok
+      | some up =>
+        have hn : bk.name = b := by simpa using List.find?_some hfb
+        have hup := List.find?_some hfu
+        simp only [Bool.and_eq_true, beq_iff_eq] at hup
+        rw [hfu] at hok
+        dsimp only at hok ⊢
+        by_cases hc : (!contiguousFrom 1 up.parts) = true
+        · simp [hc, isErrOut] at hok
+        · simp only [hc] at hok ⊢
+          cases hde : declaredErr up declared with
+          | some e => rw [hde] at hok; simp [isErrOut] at hok
+          | none =>
+            rw [hde] at hok
+            dsimp only at hok ⊢
+            generalize hpr : putRow q (tick s) { bk with uploads := bk.uploads.filter (·.uid != uid) } k _ inm im = pr at hok ⊢
+            cases pr with
+            | error e => simp [Replication.unpack, isErrOut] at hok
+            | ok r =>
+              obtain ⟨_, X, hX, hXn, hXu⟩ := putRow_rp2 q _ _ k _ inm im r hpr Out.unit
+              exact ends_tail hUt (mem_of_findBucket hfb) hn ⟨up, List.mem_of_find?_eq_some hfu, hup.1⟩ hX
+                (by rw [hXn]; exact hn) hXu
+  | uploadPart b k uid n body => simp [endsUpload] at hends
+  | mkb b => simp [endsUpload] at hends
+  | rmb b => simp [endsUpload] at hends
+  | setVer b v => simp [endsUpload] at hends
+  | put b k body o inm im => simp [endsUpload] at hends
+  | get b k vid => simp [endsUpload] at hends
+  | head b k vid => simp [endsUpload] at hends
+  | del b k vid im => simp [endsUpload] at hends
+  | copy sb sk svid db dk rm rt o => simp [endsUpload] at hends
+  | append b k body off => simp [endsUpload] at hends
+  | mpu b k o => simp [endsUpload] at hends
+  | getTags b k vid => simp [endsUpload] at hends
+  | putTags b k vid tags => simp [endsUpload] at hends
+  | delTags b k vid => simp [endsUpload] at hends
+  | transition b k cls vid => simp [endsUpload] at hends
+  | list b => simp [endsUpload] at hends
+  | listVersions b => simp [endsUpload] at hends
+  | listBuckets => simp [endsUpload] at hends
+
 end Pithos.Replication
 
